@@ -145,7 +145,12 @@ def run(pid: str, tier: str, seed: int, selftest=False, replay=None) -> int:
         text = ("builtin.module {\n  func.func public @f(%a : " + lt + ", %b : " + lt + ", %c : " + lt + ", %n : index) -> " + et + " {\n" + "\n".join(lines)
                 + "\n    func.return %r : " + et + "\n  }\n}\n")
         jobs.append((f"returned:{seed}:{k}", text, "l1", None))
-    for name, text, with_spaces, wargdom in jobs:
+    prev_text = None
+    for ji, (name, text, with_spaces, wargdom) in enumerate(jobs):
+        own = text
+        if name.startswith("gen:") and ji % 3 == 0 and prev_text is not None and with_spaces == prev_ws:
+            text = repo.add_companion(text, prev_text)       # one pass run over two functions; @f is judged
+        prev_text, prev_ws = own, with_spaces
         try:
             src = repo.parse(text)
             src.verify()
